@@ -190,6 +190,16 @@ func workC12BFS(w *run.W) {
 			}
 		}
 		if begun {
+			// every single byte after the state's witness (full 256-byte alphabet at depth 1 of every state)
+			for b := 1; b < 256; b++ {
+				in := s.witness + string([]byte{byte(b)})
+				o := impl.Scan(in, 10000)
+				w.Count("transitions", 1)
+				w.Count("byte_transitions", 1)
+				if key, what := c12WellFormed(in, o); key != "" {
+					w.Violation("C12", key, fmt.Sprintf("%s\ninput: %q", what, in), map[string]any{"input": in})
+				}
+			}
 			if i == 5 || i == 100 {
 				w.Sample(map[string]any{"state_witness": s.witness, "example_input": s.witness + c12Tokens[8]})
 			}
@@ -364,6 +374,6 @@ func runC12(c *chk.Ctx) {
 	}
 	c.Cov["exactness"] = pe
 	c.Cov["distinct_outcomes"] = map[string]int64{"error": cnt["out_error"], "lexeme_stream": cnt["out_lexemes"]}
-	c.Cov["rule"] = "(i) BFS over token strings (tokens: every keyword, parameter/blank/line-end/comment/annotation/parenthesis/body fragments) deduplicated on the real scanner's control state (VerifState after the prefix, read by stopping the scanner with a NUL byte; prefixes whose stop is not clean are kept as their own state); every (state, token) string is scanned to EOF and checked for lexeme well-formedness. (ii) every model within the budget x global layouts x layouts within deviation 1 (single-file, incl. MACRO moves): the lexeme stream must equal the renderer's position map."
+	c.Cov["rule"] = "(i) BFS over token strings (tokens: every keyword, parameter/blank/line-end/comment/annotation/parenthesis/body fragments) deduplicated on the real scanner's control state (VerifState after the prefix, read by stopping the scanner with a NUL byte; prefixes whose stop is not clean are kept as their own state); every (state, token) string and every (state, single byte) string is scanned to EOF and checked for lexeme well-formedness. (ii) every model within the budget x global layouts x layouts within deviation 1 (single-file, incl. MACRO moves): the lexeme stream must equal the renderer's position map."
 	os.Getpid()
 }
